@@ -404,3 +404,13 @@ package schema
 //@   assumed
 //@   modifies nothing
 //@   emits Call(code("schema|Element.FindBy"), this)
+// The generated, recursive FindBy of the two concrete types the engine searches directly: it only runs the predicate
+// on elements of the model (assumed: opaque events, no engine state touched; 14.5k generated lines are not verified).
+//@ func (*Process).FindBy
+//@   assumed
+//@   modifies nothing
+//@   flag emits opaque
+//@ func (*Definitions).FindBy
+//@   assumed
+//@   modifies nothing
+//@   flag emits opaque
